@@ -30,7 +30,7 @@ Definition kModel : ident := 17%positive.
 Definition kPackage : ident := 18%positive.
 Definition pInput : ident := 19%positive.
 Definition pOutput : ident := 20%positive.
-Definition pParameter : ident := 21%positive.
+Definition pParam : ident := 21%positive.
 Definition pConstant : ident := 22%positive.
 Definition pDiscrete : ident := 23%positive.
 Definition pFlow : ident := 24%positive.
